@@ -1055,7 +1055,12 @@ func c20Exec(r *sim.Run, sci interface{}) {
 			r.Sleep(time.Microsecond)
 		}
 	}
-	super = supervisor.MustNew(&option.Options{AbsHomeDir: "/nonexistent-verif-c20"}, cls)
+	// The registry stores every applied snapshot in <home>/running_objects.yaml.
+	// A real system call inside a run lets the Go runtime hand the processor
+	// to another goroutine when the call is slow (machine load), which
+	// reorders tape draws made between two gates: the NUL byte makes
+	// os.WriteFile fail with EINVAL before any system call is made.
+	super = supervisor.MustNew(&option.Options{AbsHomeDir: "/nonexistent-verif-c20\x00"}, cls)
 	if e, ok := super.GetSystemController(trafficcontroller.Kind); ok {
 		tc, _ = e.Instance().(*trafficcontroller.TrafficController)
 	}
@@ -1269,7 +1274,7 @@ func TestVerifC20(t *testing.T) {
 			"pkg/object/trafficcontroller (TrafficController Create/Update/Delete TrafficGate)", "pkg/object/rawconfigtrafficcontroller (Init/reload, watcher loop, handleEvent)"},
 		Stub: []string{"cluster -> clustertest.MockedCluster, syncer channel fed by the harness", "four recording object kinds registered by the harness (2 business controllers, 1 pipeline-category, 1 traffic-gate-category)",
 			"sync.Mutex/sync.Map -> simsync (same semantics + gates); map ranges, multi-case selects and goroutine starts of the three packages determinised by check.json map_ranges/selects/go_gates", "logger -> nop",
-			"running_objects.yaml is written to a non-existent directory (write fails, logged)"},
+			"running_objects.yaml: the home directory name contains a NUL byte, so the write fails (logged) before any system call is made"},
 		Assumptions: []string{
 			"one lifecycle per (name, controller domain): Supervisor and RawConfigTrafficController reconcile on independent goroutines, so for a change of kind across domains the order of Close(old) and Init(new) is free; inside a domain a change of kind must Close(old) before Init(new)",
 			"calls are counted whether or not they panic; an object whose Init/Inherit panicked still is the live generation of its name; after a panicking Inherit the new and the previous instance are both accepted as next predecessor / Close target",
